@@ -18,6 +18,11 @@ struct ThreadRec {
     long steps = 0;
     bool go = false;                 // baton handed to this thread
     bool notified = false;           // a notify was issued in the current critical section
+    bool timedWait = false;          // parked in a timed condition-variable wait: it may time out at any moment,
+                                     // i.e. it is steppable although nobody notified it
+    bool woken = false;              // the current wait was ended by a notify (not by a time-out / spurious wake-up)
+    long timeoutEpoch = -1;          // g_epoch when this thread's time-out last fired (a time-out fires at most once
+                                     // between two ordinary steps: re-armed waits that change nothing are quiescent)
     std::condition_variable cv;
     std::thread real;
     std::function<void()> fn;
@@ -31,6 +36,7 @@ static int current = -1;                           // id of the running schedule
 static std::set<const void *> untracked;
 static std::set<const void *> postunlock;
 static long g_steps = 0;
+static long g_epoch = 0;                           // number of ordinary (non-time-out) steps so far
 static thread_local ThreadRec * tl_self = nullptr;
 
 int self_id() { return tl_self ? tl_self->id : -1; }
@@ -56,13 +62,17 @@ void yield_point(Kind k, const void * obj) {
 
 void app_point() { yield_point(K_APP, nullptr); }
 
-void block_on_cv(const void * cv) {
+bool block_on_cv(const void * cv, bool timed) {
     ThreadRec * me = tl_self;
     std::unique_lock<std::mutex> lk(G);
     me->kind = K_CVWAIT;
     me->obj = cv;
     me->state = S_BLOCKED_CV;
+    me->timedWait = timed;
+    me->woken = false;
     park(lk, me);
+    me->timedWait = false;
+    return me->woken;
 }
 
 void block_on_mutex(const void * m) {
@@ -86,6 +96,7 @@ void notify_cv(const void * cv, bool all) {
         if (t->state == S_BLOCKED_CV && t->obj == cv) {
             t->state = S_RUNNABLE;
             t->kind = K_WAKE;
+            t->woken = true;
             if (!all) break;
         }
 }
@@ -200,7 +211,10 @@ Info info(int tid) {
 
 bool runnable(int tid) {
     std::unique_lock<std::mutex> lk(G);
-    return tid >= 0 && tid < (int) T.size() && T[tid]->state == S_RUNNABLE;
+    if (tid < 0 || tid >= (int) T.size()) return false;
+    // a thread in a timed wait can always take a step: its time-out
+    return T[tid]->state == S_RUNNABLE ||
+           (T[tid]->state == S_BLOCKED_CV && T[tid]->timedWait && T[tid]->timeoutEpoch != g_epoch);
 }
 
 bool all_finished() {
@@ -213,13 +227,21 @@ bool all_finished() {
 bool any_runnable() {
     std::unique_lock<std::mutex> lk(G);
     for (auto & t : T)
-        if (t->state == S_RUNNABLE) return true;
+        if (t->state == S_RUNNABLE || (t->state == S_BLOCKED_CV && t->timedWait && t->timeoutEpoch != g_epoch)) return true;
     return false;
 }
 
 void step(int tid) {
     std::unique_lock<std::mutex> lk(G);
     ThreadRec * t = T.at(tid).get();
+    if (t->state == S_BLOCKED_CV && t->timedWait) {
+        // the time-out of a timed wait fires: the wait ends without a notify
+        t->state = S_RUNNABLE;
+        t->kind = K_WAKE;
+        t->timeoutEpoch = g_epoch;
+    } else {
+        g_epoch++;
+    }
     if (t->state != S_RUNNABLE) {
         fprintf(stderr, "vsync: step(%d) on a thread that is not runnable (state %d)\n", tid, (int) t->state);
         abort();
